@@ -237,10 +237,14 @@ pub fn generate(rng: &mut Rng, p: &Pools, mode: &str) -> Workload {
         let mut ops = Vec::new();
         for _ in 0..n_ops {
             if c10 {
-                let cc = match rng.below(6) {
+                // hot countries, and the first / last region of each of the two streams
+                let school: Vec<&String> = p.data.school.keys().collect();
+                let cc = match rng.below(9) {
                     0 | 1 | 2 => rng.pick(&hot).clone(),
                     3 => p.countries[0].clone(),
-                    4 => p.countries[p.countries.len() - 1].clone(),
+                    4 | 5 => p.countries[p.countries.len() - 1].clone(),
+                    6 if !school.is_empty() => school[0].clone(),
+                    7 | 8 if !school.is_empty() => school[school.len() - 1].clone(),
                     _ => p.pick_country(rng),
                 };
                 ops.push(match rng.below(5) {
@@ -269,6 +273,29 @@ pub fn generate(rng: &mut Rng, p: &Pools, mode: &str) -> Workload {
             threads[a].insert(pa, o1);
             let pb = rng.usize_below(threads[b].len() + 1);
             threads[b].insert(pb, o2);
+        }
+    }
+    // bursts on colliding keys: every thread evaluates the same sun-event expression at the same instant for a
+    // different place, or the same Easter expression in years that are 16 / 32 / 64 apart (small direct-mapped
+    // tables collide on exactly such keys)
+    if !c10 && rng.chance(1, 5) {
+        let sun = rng.chance(1, 2);
+        let e = if sun { rng.pick(&p.sun_exprs).clone() } else { rng.pick(&p.easter_exprs).clone() };
+        let t0 = *rng.pick(&p.instants);
+        let first = rng.usize_below(p.sun_coords.len());
+        let step = *rng.pick(&[16i64, 32, 32, 64]);
+        for (i, th) in threads.iter_mut().enumerate() {
+            let (c, t) = if sun {
+                let co = p.sun_coords[(first + i) % p.sun_coords.len()];
+                (Ctx::TzCoords("UTC".into(), co.0, co.1), t0)
+            } else {
+                // the same calendar day, `step * i` years later (365.2425 days per year is close enough: the
+                // evaluation only has to land in that year)
+                (Ctx::Default, t0 + (step * i as i64) * 31_556_952)
+            };
+            let pos = rng.usize_below(th.len().min(2) + 1);
+            let n = rng.range(2, 6) as u32;
+            th.insert(pos, if rng.chance(1, 2) { Op::Iter { e: e.clone(), c, t, n } } else { Op::StateNext { e: e.clone(), c, t } });
         }
     }
     // two expressions that differ in spacing only, evaluated in the same execution (same kind of operation)
